@@ -181,6 +181,45 @@ def lk4(ctx, flavours):
     return out
 
 
+def lk5(ctx, flavours):
+    """positions do not survive a lock release: no index (usize) computed from data read under one acquisition of a node's
+    lock is handed to a list operation performed under another acquisition (the list may have changed in between)"""
+    from .rules_edge import model
+    from .core import term_calls
+    F, G = ctx.F, ctx.G()
+    out = []
+    VEC_POS = re.compile(r'^std::vec::Vec::(remove|swap_remove|insert|split_off|truncate|drain)$|::index(_mut)?$|^\[T\]::(get|get_mut|swap|split_at\w*)$')
+    for fl in flavours:
+        M = model(ctx, fl)
+        for b in F.by_flavour(fl):
+            if b['kind'] == 'Closure' or b['q'] in getattr(F, 'absorbed', ()) or not b.get('impl_self_q', '').endswith('::node::Node') or b.get('impl_trait'):
+                continue
+            pv = F.prov(b)
+            why = []
+            n = 0
+            for bi, t in calls_in(b):
+                res = t.get('res') if t.get('local') else None
+                if not ((res in M.methods) or VEC_POS.search(callee_name(t))) or not t['args']:
+                    continue
+                recv = pv.of_operand(t['args'][0])
+                racq = {c[3] for c in term_calls(recv) if c[1] in ACQ}
+                if not racq:
+                    continue
+                for a in t['args'][1:]:
+                    if a['k'] not in ('copy', 'move') or F.types[b['locals'][a['pl']['l']]].get('s') != 'usize' or a['pl']['p']:
+                        continue
+                    n += 1
+                    term = pv.of_operand(a)
+                    src = {c[3] for c in term_calls(term) if c[1] in ACQ}
+                    opaque = [c[1] for c in term_calls(term) if c[1] in F.bodies and G.may.get(c[1])]
+                    if src - racq:
+                        why.append('%s at %s receives an index computed under another acquisition of the lock (%s)' % (callee_name(t).split('::')[-1], t['sp'], pretty(term)[:70]))
+                    elif opaque:
+                        why.append('%s at %s receives an index returned by %s, which takes the lock on its own' % (callee_name(t).split('::')[-1], t['sp'], opaque[0].split('::')[-1]))
+            out.append(Obl('LK5', b['q'], b['span'], 'no position computed under one critical section is used in another', not why, '; '.join(why) if why else '%d positional arguments, all computed under the same guard or not from the lists' % n))
+    return out
+
+
 ITER_STRUCTS = ('IterOut', 'IterIn', 'NodeIterator', 'PathEdgeIterator', 'PathNodeIterator', 'Bfs', 'Dfs', 'Pfs', 'Order', 'Path', 'Edge', 'Graph')
 
 
